@@ -299,7 +299,7 @@ DAEMON_INV = ["D_AckRestoreEqualsSource", "D_FinalRestoreEqualsSource", "D_Every
 FAULT_KINDS = ["list", "open", "openmid", "write-before", "write-partial", "write-after", "delete-before", "delete-after"]
 
 
-def daemon_cases(seed, n, first_id=0, steps=(40, 90), faults="some", loss=False):
+def daemon_cases(seed, n, first_id=0, steps=(40, 90), faults="some", loss=False, restarts=True):
     """faults: "none" | "some" (every third case) | "all": storage faults armed in bursts while the monitors run
     loss: local level-0 files vanish / are truncated under the running daemon (auto-recovery on in two cases of three)"""
     rnd = random.Random(seed * 7793 + 17)
@@ -348,6 +348,16 @@ def daemon_cases(seed, n, first_id=0, steps=(40, 90), faults="some", loss=False)
                 sched.append(["Sleep", rnd.randint(5, 80)])
             if rnd.random() < 0.5:
                 sched.append(["Sleep", rnd.randint(1, 20)])
+        if restarts and k % 2 == 0:
+            # the process is restarted (new DB object) once or twice, the application keeps working while litestream is down
+            cut = sorted(rnd.sample(range(5, len(sched) - 1), min(2, rnd.randint(1, 2))))
+            out, prev = [], 0
+            for c in cut:
+                down = [rnd.choice([["AppWrite", rnd.randint(1, 6)], ["AppGrow", 1], ["AppCheckpoint", rnd.choice(["PASSIVE", "RESTART", "TRUNCATE"])],
+                                    ["Sleep", rnd.randint(5, 30)]]) for _ in range(rnd.randint(0, 5))]
+                out += sched[prev:c] + [["DaemonStop"]] + down + [["DaemonStart"]]
+                prev = c
+            sched = out + sched[prev:]
         if with_faults:
             sched += [["ClearFaults"], ["Sleep", 30], ["SyncWait"], ["SyncWait"]]
         elif rnd.random() < 0.7:
@@ -355,7 +365,8 @@ def daemon_cases(seed, n, first_id=0, steps=(40, 90), faults="some", loss=False)
         sched += [["DaemonStop"], ["Validate"], ["AuditNow"], ["RestoreCheck"], ["AppCheckpoint", "TRUNCATE"]]
         cfg = mk_cfg(seed * 1009 + k, page_size=[4096, 512, 1024][k % 3], rows=6, init_ckpt=(k % 2 == 0),
                      auto_vacuum=["none", "none", "incremental"][k % 3],
-                     min_pg=[1000, 4, 2][k % 3], trunc_pg=[0, 0, 9][(k // 3) % 3], max_bytes=0)
+                     min_pg=[1000, 4, 2][k % 3], trunc_pg=[0, 0, 9][(k // 3) % 3],
+                     max_bytes=[0, 0, [4096, 512, 1024][k % 3] + 24, 3 * ([4096, 512, 1024][k % 3] + 24)][k % 4])
         fast = k % 2 == 0
         cfg["faults"] = with_faults
         cfg["control"] = True       # the same application history without litestream (C14 clause of the daemon judge)
